@@ -15,11 +15,14 @@ pickle / deepcopy probes) is judged by ContainersTrace.tla (TLC).
 from __future__ import annotations
 
 import concurrent.futures as cf
+import json
+import multiprocessing as mp
+import os
 import random
 
 from .. import containers as C
 from .. import tlc
-from ..core import Ctx, pmap
+from ..core import Ctx
 
 LEVEL = "model_checking"
 AREA = "containers"
@@ -35,16 +38,59 @@ def _key(rej):
     return k
 
 
-def judge_scripts(ctx: Ctx, jobs, kind_of_case="c08", chunk=400):
-    """jobs: list of (keys, steps).  Runs them on the real code and judges every recorded line with TLC
-    (in chunks of scripts, to bound memory)."""
+def _record_and_judge(args):
+    """Worker process: run a group of scripts on the real code, write the recorded lines as ndjson and let
+    TLC (ContainersTrace) judge them.  Python only transports: the verdicts are the REJECT records TLC prints."""
+    gid, tmp, group = args
+    path = os.path.join(tmp, f"trace-c08-{gid}.ndjson")
+    nlines = ncalls = 0
+    index = {}
+    with open(path, "w") as f:
+        for t, keys, steps in group:
+            for ln in C.run_script((t, keys, steps)):
+                f.write(json.dumps(ln, separators=(",", ":")) + "\n")
+                nlines += 1
+                if ln["op"] != "begin":
+                    ncalls += 1
+                    index[(t, ln["i"])] = {a: ln[a] for a in ("op", "o", "name", "how", "kind", "r") if a in ln}
+    r = tlc.run_tlc(AREA, "ContainersTrace", None, workers=1, tmp=tmp, timeout=1800, env={"TRACE_FILE": path}, heap="2g")
+    judged = [v for v in r.printed if isinstance(v, dict) and "judged" in v]
+    if not judged or judged[-1]["judged"] != nlines:
+        raise tlc.MachineryError(f"judge containers/ContainersTrace: judged {judged} of {nlines} lines\n{r.stdout[-1500:]}")
+    os.unlink(path)
+    rejects = [v for v in r.printed if isinstance(v, dict) and v.get("reject")]
+    drift = [v for v in r.printed if isinstance(v, dict) and v.get("drift")]
+    for v in rejects:
+        v["line"] = index.get((v["t"], v["i"]), {})
+    return rejects, drift, nlines, ncalls, r.distinct, r.generated
+
+
+def judge_scripts(ctx: Ctx, jobs, kind_of_case="c08", chunk=None):
+    """jobs: list of (keys, steps).  Every script is executed on the real code and every recorded line is
+    judged by TLC; recording and judging run in ctx.workers processes (one TLC judge each), in chunks of
+    scripts to bound memory and file sizes."""
+    chunk = chunk or (6000 if ctx.quick else 1500)
     for base in range(0, len(jobs), chunk):
         part = jobs[base: base + chunk]
-        args = [(t, keys, steps) for t, (keys, steps) in enumerate(part)]
-        results = pmap(C.run_script, args, workers=ctx.workers, chunksize=8)
-        lines = [ln for ls in results for ln in ls]
-        ctx.count(sum(1 for ln in lines if ln["op"] != "begin"))
-        rejects = ctx.judge(AREA, "ContainersTrace", lines, batch=2500)
+        ngroups = max(1, min(ctx.workers, len(part) // 4 or 1))
+        order = sorted(range(len(part)), key=lambda t: -len(part[t][1]))
+        groups = [[] for _ in range(ngroups)]
+        for n, t in enumerate(order):          # balance the groups by script length
+            groups[n % ngroups].append((t, part[t][0], part[t][1]))
+        args = [(base * 1000 + g, ctx.tmp, sorted(grp)) for g, grp in enumerate(groups)]
+        if ngroups == 1:
+            outs = [_record_and_judge(args[0])]
+        else:
+            with mp.get_context("fork").Pool(ngroups) as pool:
+                outs = pool.map(_record_and_judge, args, chunksize=1)
+        rejects = []
+        for rj, drift, nlines, ncalls, distinct, generated in outs:
+            rejects += rj
+            ctx.model_drift.extend(drift[:50])
+            ctx.traces += nlines
+            ctx.count(ncalls)
+            ctx.states += distinct
+            ctx.transitions += generated
         stopped, reported = set(), set()
         for r in sorted(rejects, key=lambda r: (r["t"], r["i"])):
             # an ==/hash probe does not touch the objects: report it (once per trace and key) and go on;
@@ -58,9 +104,8 @@ def judge_scripts(ctx: Ctx, jobs, kind_of_case="c08", chunk=400):
             if (r["t"], k) in reported:
                 continue
             reported.add((r["t"], k))
-            ln = results[r["t"]][r["i"]]
             case = {"keys": keys, "steps": [{a: b for a, b in st.items() if a != "x"} for st in steps[: r["i"]]],
-                    "line": {a: ln[a] for a in ("op", "o", "name", "how", "kind", "r") if a in ln}, "what": r.get("what")}
+                    "line": r.get("line", {}), "what": r.get("what")}
             ctx.violation(k, r["clause"], case, kind=kind_of_case)
             vk = ctx.notes.setdefault("rejected_keys", {})
             vk[k] = vk.get(k, 0) + 1
@@ -68,15 +113,20 @@ def judge_scripts(ctx: Ctx, jobs, kind_of_case="c08", chunk=400):
 
 def _par(ctx: Ctx, fns):
     """run independent TLC invocations side by side (each is a separate JVM)"""
-    with cf.ThreadPoolExecutor(max_workers=max(1, min(len(fns), ctx.workers // 2))) as ex:
+    with cf.ThreadPoolExecutor(max_workers=max(1, min(len(fns), ctx.workers))) as ex:
         return [f.result() for f in [ex.submit(fn) for fn in fns]]
 
 
-def export_walks(ctx: Ctx, cfgs, maxlen):
+def export_fns(ctx: Ctx, cfgs):
+    return [lambda cfg=cfg: ctx.export(AREA, "MCQ", cfg, count_states=False, timeout=1800) for _, cfg in cfgs]
+
+
+def export_walks(ctx: Ctx, cfgs, maxlen, exported=None):
     rng = random.Random(ctx.seed)
     jobs = []
     ntrans = 0
-    exported = _par(ctx, [lambda cfg=cfg: ctx.export(AREA, "MCQ", cfg, count_states=False, timeout=1800) for _, cfg in cfgs])
+    if exported is None:
+        exported = _par(ctx, export_fns(ctx, cfgs))
     for (kind, cfg), printed in zip(cfgs, exported):
         trans = [v for v in printed if isinstance(v, dict) and "pre" in v]
         if not trans:
@@ -97,7 +147,7 @@ def export_walks(ctx: Ctx, cfgs, maxlen):
 
 def random_jobs(ctx: Ctx, n, nsteps):
     rng = random.Random(ctx.seed * 7919 + 1)
-    fams = ["md", "md", "md", "headers", "headers", "headerset", "environ"]
+    fams = ["md", "md", "md", "headers", "headers", "headerset", "environ", "twins"]
     jobs = []
     for i in range(n):
         keys, steps = C.gen_script(rng, fams[i % len(fams)], nsteps)
@@ -126,13 +176,21 @@ def run(ctx: Ctx):
         "and is not exercised; copy.copy(HeaderSet) is not claimed (no documented copy)",
         "get(type=int) is probed with digit strings / non-numeric strings only (no signs, blanks, underscores)",
         "equality of Headers is judged only by: same lines => equal, equal => same set of (lower name, value)",
+        "equality of the MultiDict family is dict equality of key -> value list (key order irrelevant, as for any dict); for every "
+        "pair of live objects of one family - including 'twins' with equal content but different key insertion order built from "
+        "different constructor inputs / histories, their pickles and deep copies, and ImmutableDict / ImmutableTypeConversionDict / "
+        "ImmutableOrderedMultiDict, which have no model of their own - only the bare laws are demanded of what the real == "
+        "returned: == symmetric, equal => same hash => one set member / one dict key",
     ]
     # 1. model checking
     w = max(2, ctx.workers // 4)
-    mcs = [lambda kind=kind: ctx.model_check(AREA, "MCQ", f"MCQ_{kind}", timeout=900, workers=w) for kind in KINDS]
+    mcs = [lambda kind=kind: ctx.model_check(AREA, "MCQ", f"MCQ_{kind}", timeout=900, workers=2 * w if kind == "Headers" else w)
+           for kind in KINDS]
     mcs.append(lambda: ctx.model_check(AREA, "MCHS", "HeaderSetImpl_fixed", timeout=600, workers=2))
     mcs.append(lambda: tlc.run_tlc(AREA, "MCHS", "HeaderSetImpl_orig", workers=2, tmp=ctx.tmp, allow_violation=True))
-    r = _par(ctx, mcs)[-1]
+    cfgs = [(k, f"MCQ_{k}_x") for k in KINDS] if q else [(k, f"MCT_{k}_x") for k in KINDS]
+    res = _par(ctx, mcs + export_fns(ctx, cfgs))      # model checks and exports side by side
+    r, exported = res[len(mcs) - 1], res[len(mcs):]
     if not q:
         for cfg in ("MCT_MultiDict", "MCT_Headers", "MCT_HeaderSet"):
             ctx.model_check(AREA, "MCQ", cfg, timeout=3000)
@@ -141,8 +199,7 @@ def run(ctx: Ctx):
         raise tlc.MachineryError("the implementation-shaped HeaderSet model of the pre-fix code no longer violates Refines")
     ctx.exhaustive = True
     # 2. spec -> code replay of the complete transition system
-    cfgs = [(k, f"MCQ_{k}_x") for k in KINDS] if q else [(k, f"MCT_{k}_x") for k in KINDS]
-    jobs = export_walks(ctx, cfgs, maxlen=30 if q else 40)
+    jobs = export_walks(ctx, cfgs, maxlen=30 if q else 40, exported=exported)
     # 3. code -> spec: seeded random scenarios
     jobs += random_jobs(ctx, 320 if q else 3000, 12 if q else 16)
     judge_scripts(ctx, jobs)
